@@ -111,7 +111,7 @@ func runC13(c *Ctx) {
 	}
 	has := func(subs ...string) bool { return hasIn(s, subs...) }
 	// store type
-	okType := hasIn(sG, "T(call:ngo/internal/slices.Contains(global:ngo/verifier/truststore.Types,"+gTypeP+"))") || has("T(call:ngo/internal/slices.Contains(global:ngo/verifier/truststore.Types,"+typeP+"))")
+	okType := hasIn(sG, "T(call:slices.Contains(global:ngo/verifier/truststore.Types,"+gTypeP+"))") || has("T(call:slices.Contains(global:ngo/verifier/truststore.Types,"+typeP+"))")
 	c.slot(okType, 1, "gate/known-type", "the store type is an element of truststore.Types", site, "an unknown store type is loaded")
 	// store name: certified validator
 	var nameFn *ssa.Function
